@@ -46,4 +46,30 @@ def serversAt (verify : PK → Sig → Msg → Bool) (parse : Msg → Parsed Nat
     (preferred : List Nat) (forUpload : Bool) (now : Time) (l : List (Announced Sig Msg)) : List Server :=
   getServersForPsi preferred forUpload (l.map (toServer verify parse keys now))
 
+/-! ### Undecodable certificate entries
+
+An announcement lists its certificates as JSON objects `{"certificate": text, "signature": base32}`;
+`_make_storage_server` turns each into a `SignedCertificate` (`SignedCertificate.load`).  An entry
+that cannot be decoded (missing field, non-string field, signature text that is not base32, entry
+that is not an object) makes `load` raise, the exception leaves `_make_storage_server` and
+`_got_announcement`, and **no server object is created from that announcement** (a previously
+announced object, if any, stays as it was).  So an undecodable entry grants nothing, and it never
+turns the configured-keys case into the no-keys case (seed C33-d made the verifier `None`, which
+`upload_permitted()` reads as "no keys configured"). -/
+structure Announcement (Sig Msg : Type) where
+  id : Nat
+  connected : Bool
+  entries : List (Option (SignedCert Sig Msg))      -- `none` = `SignedCertificate.load` raises
+  hash : Nat
+  deriving Repr
+
+/-- `_make_storage_server`: the server object, unless decoding an entry raises -/
+def accept (a : Announcement Sig Msg) : Option (Announced Sig Msg) :=
+  if a.entries.all Option.isSome then some ⟨a.id, a.connected, a.entries.filterMap id, a.hash⟩ else none
+
+/-- `get_servers_for_psi` at `now` on the servers that exist after these (first) announcements -/
+def serversAtA (verify : PK → Sig → Msg → Bool) (parse : Msg → Parsed Nat) (keys : List PK)
+    (preferred : List Nat) (forUpload : Bool) (now : Time) (l : List (Announcement Sig Msg)) : List Server :=
+  serversAt verify parse keys preferred forUpload now (l.filterMap accept)
+
 end Tahoe.StorageClient
